@@ -53,6 +53,24 @@ func runC15(r *Report, rng *rand.Rand, n int, enumerate bool) {
 		r.AddDist(dist)
 		docs = append(docs, d)
 	}
+	// chains of components in which every link is referred to by the previous one only: an unanchored chain of k links needs
+	// k+1 rounds of the pruning loop (one link becomes an orphan per round), an anchored one is kept entirely
+	chainLens := []int{1, 2, 3, 5, 8, 9, 10, 11, 12, 13, 16, 21, 34}
+	if enumerate {
+		for k := 1; k <= 48; k++ {
+			chainLens = append(chainLens, k)
+		}
+		chainLens = append(chainLens, 64, 100, 150)
+	}
+	for _, k := range chainLens {
+		docs = append(docs, gendoc.Chain(rng, k, false, false))
+		r.Dist["orphan_chain"]++
+		r.Dist[fmt.Sprintf("orphan_chain_len>10=%v", k > 10)]++
+		if k%3 == 0 {
+			docs = append(docs, gendoc.Chain(rng, k, true, false))
+			r.Dist["anchored_chain"]++
+		}
+	}
 	for i, d := range docs {
 		data := d.JSON()
 		spec, err := loadSpec(data)
@@ -116,9 +134,16 @@ func runC15(r *Report, rng *rand.Rand, n int, enumerate bool) {
 	nE2E := n / 6
 	for i := 0; i < nE2E; i++ {
 		d, _ := gendoc.Generate(rng, tameOpts())
+		if i%5 == 4 {
+			// a long chain of schemas behind an operation that the filter may remove: one pruning round per link
+			d = gendoc.Chain(rng, 3+rng.Intn(30), true, true)
+			r.Dist["end_to_end_chain"]++
+		}
 		fc := randFilterCfg(rng, d)
 		fc.SkipPrune = false
-		if i%2 == 0 && len(d.OpKeys()) > 0 {
+		if i%5 == 4 && i%2 == 0 {
+			fc.IncludeTags, fc.ExcludeTags, fc.IncludeIDs, fc.ExcludeIDs = nil, []string{"a"}, nil, nil
+		} else if i%2 == 0 && len(d.OpKeys()) > 0 {
 			// operations removed by their id
 			var ids []string
 			for _, p := range d.Paths {
